@@ -1,5 +1,5 @@
 (* C18 — Per-node data behaves like an atomic optional slot.  Property theorems only. *)
-From CsModel Require Import Red RedProofs Conc ConcProofs ConcData ConcPayload.
+From CsModel Require Import Red RedProofs Conc ConcProofs ConcData ConcPayload ConcLin.
 From Coq Require Import ZArith.
 
 (* a data operation is one machine step, and that step is the sequential optional-slot operation
@@ -39,3 +39,21 @@ Theorem C18_payloads_dropped_once : forall g progs s,
   (progs <> [] -> all_done s = true -> Z.of_nat (c_payload_drops s) = sumT createdT (c_threads s)).
 Proof. exact payloads_dropped_once. Qed.
 Print Assumptions C18_payloads_dropped_once.
+
+(* run level: the data operations of EVERY run (any programs, any schedule, any length) are linearizable.
+   The history h of a run lists its data operations in the order of the machine steps performing them
+   (RunH; every reachable state has one).  Executing h sequentially on one optional slot per position
+   (seq_run, from the empty store) gives, entry by entry, the result the thread recorded in its output
+   (Recorded); while the tree is alive the data the machine holds is the store that execution ends in;
+   and h keeps each thread's operations in program order (POrd). *)
+Theorem C18_data_linearizable : forall g progs s h,
+  RunH g progs s h ->
+  Forall2 (Recorded s) h (fst (seq_run st_empty h)) /\
+  (c_torn s = false -> forall p, snd (seq_run st_empty h) p = data_lookup (c_data s) p) /\
+  POrd h.
+Proof. exact data_linearizable. Qed.
+Print Assumptions C18_data_linearizable.
+
+Theorem C18_every_state_has_a_history : forall g progs s, Reach g progs s -> exists h, RunH g progs s h.
+Proof. exact Reach_RunH. Qed.
+Print Assumptions C18_every_state_has_a_history.
